@@ -148,6 +148,7 @@ type PanicCli struct {
 func init() {
 	Register(&Scenario{
 		Name:     "panic",
+		OptsToo:  true,
 		DescToo:  true,
 		Property: "C13",
 		Cfg:      vsched.Config{Horizon: 10 * time.Second},
